@@ -905,16 +905,30 @@ class PeriodicCallback:
         self.jitter = jitter
         self._running = False
         self._timeout: object = None
+        self._in_flight = False
 
     def start(self) -> None:
-        """Starts the timer."""
+        """Starts the timer.
+
+        Calling ``start`` on a `PeriodicCallback` that is already
+        running restarts its schedule from the current time.
+        """
         # Looking up the IOLoop here allows to first instantiate the
         # PeriodicCallback in another thread, then start it using
         # IOLoop.add_callback().
         self.io_loop = IOLoop.current()
         self._running = True
         self._next_timeout = self.io_loop.time()
-        self._schedule_next()
+        if self._timeout is not None:
+            # Restarted while a timeout is pending: replace it instead
+            # of leaving a second one behind.
+            self.io_loop.remove_timeout(self._timeout)
+            self._timeout = None
+        if not self._in_flight:
+            # Otherwise the invocation that is still running schedules
+            # the next one when it finishes; scheduling here as well
+            # would start the callback again while it is still running.
+            self._schedule_next()
 
     def stop(self) -> None:
         """Stops the timer."""
@@ -931,8 +945,9 @@ class PeriodicCallback:
         return self._running
 
     async def _run(self) -> None:
-        if not self._running:
+        if not self._running or self._in_flight:
             return
+        self._in_flight = True
         try:
             val = self.callback()
             if val is not None and isawaitable(val):
@@ -940,6 +955,7 @@ class PeriodicCallback:
         except Exception:
             app_log.error("Exception in callback %r", self.callback, exc_info=True)
         finally:
+            self._in_flight = False
             self._schedule_next()
 
     def _schedule_next(self) -> None:
